@@ -30,6 +30,30 @@ def lag_case(seed, i, engine):
     return core.Case("backend", lines, {"engine": engine, "lag": True})
 
 
+def native_watch_case(seed, i, engine):
+    """the NATIVE watch handler (pkg/server/brain) on an in-process stream: history, then a watch from an old revision
+    (replayed from the cache) or from `now`, then more writes; every response header must cover the events it carries"""
+    from ..gen import PREFIX, hx
+    r = rng_for(seed, "c02nw/%d" % i)
+    keys = r.sample([k for k in KEY_POOL if b"events" not in k][:8], r.randint(1, 3))
+    sh = hist.Shadow()
+    lines = [hist.cfg_line(engine)]
+    lines += hist.gen_writes(r, sh, r.randint(2, 8), keys, p_ok=0.9)
+    start = 0 if i % 2 == 0 else hist.INIT + r.randint(1, max(1, sh.dealt - hist.INIT))
+    lines += ["bwatch w %s %d" % (hx(PREFIX + b"/"), start), "bdrain w"]
+    lines += hist.gen_writes(r, sh, r.randint(2, 8), keys, p_ok=0.9)
+    lines += ["bdrain w"]
+    return core.Case("backend", lines, {"engine": engine, "native_watch": True})
+
+
+def native_watch_oracle(case):
+    for i, (line, out) in enumerate(zip(case.lines, case.impl)):
+        if line.startswith("bdrain") and " hdrok=0" in out:
+            return ("line %d: a native watch response carried an event whose revision is above the response header: %s"
+                    % (i + 1, out), "watch-header-lt-data")
+    return None
+
+
 def lag_oracle(case):
     newest = {}
     for i, (line, out) in enumerate(zip(case.lines, case.impl)):
@@ -61,7 +85,18 @@ def check(rep, tier, seed):
     from . import c01
     cases += c01.exhaustive_pairs(seed, "memkv")
     lags = [lag_case(seed, i, ENGINES[i % 3]) for i in range(9 if tier == "quick" else 900)]
-    core.run_cases(cases + seqs + lags)
+    nws = [native_watch_case(seed, i, ENGINES[i % 3]) for i in range(6 if tier == "quick" else 600)]
+    core.run_cases(cases + seqs + lags + nws)
+    for c in nws:
+        rep.count_case(c)
+        hit = native_watch_oracle(c)
+        if hit:
+            if core.handle_oracle_hit(rep, "C02", hit[1], c, hit[0], hit[1]):
+                return
+            continue
+        if c.diff() is not None:
+            core.handle_diff(rep, "C02", "correspondence-native-watch", c)
+            return
     for c in lags:
         rep.count_case(c)
         hit = lag_oracle(c)
